@@ -13,17 +13,19 @@ import (
 
 // Solver wraps one long-lived incremental SMT solver process.
 type Solver struct {
-	cmd     *exec.Cmd
-	in      io.WriteCloser
-	out     *bufio.Reader
-	sync    int
-	Queries int
-	Time    time.Duration
-	Errors  []string
-	Unknown int
-	defs    int
-	name    string
-	log     io.Writer
+	cmd       *exec.Cmd
+	in        io.WriteCloser
+	out       *bufio.Reader
+	sync      int
+	Queries   int
+	Time      time.Duration
+	Errors    []string
+	Unknown   int
+	defs      int
+	name      string
+	log       io.Writer
+	timeoutMs int
+	Retried   int // queries repeated with a larger time limit after an "unknown"
 }
 
 func solverArgs(kind string) (string, []string) {
@@ -52,7 +54,7 @@ func NewSolver(kind string, timeoutMs int) (*Solver, error) {
 	if err := cmd.Start(); err != nil {
 		return nil, err
 	}
-	s := &Solver{cmd: cmd, in: in, out: bufio.NewReaderSize(outp, 1<<16), name: kind}
+	s := &Solver{cmd: cmd, in: in, out: bufio.NewReaderSize(outp, 1<<16), name: kind, timeoutMs: timeoutMs}
 	if p := os.Getenv("SYMGO_SMTLOG"); p != "" {
 		f, _ := os.CreateTemp(p, "smt-*.smt2")
 		s.log = f
@@ -129,6 +131,23 @@ func (s *Solver) Check() string {
 		if l == "sat" || l == "unsat" || l == "unknown" {
 			res = l
 		}
+	}
+	if res == "unknown" && s.name != "cvc5" && s.timeoutMs > 0 {
+		// the per-query limit is wall-clock time, so a busy machine can turn a decidable query into "unknown":
+		// ask once more with thirty times the limit before giving up
+		s.send(fmt.Sprintf("(set-option :timeout %d)", 30*s.timeoutMs))
+		t1 := time.Now()
+		s.send("(check-sat)")
+		lines = s.flush()
+		s.Queries++
+		s.Time += time.Since(t1)
+		s.Retried++
+		for _, l := range lines {
+			if l == "sat" || l == "unsat" || l == "unknown" {
+				res = l
+			}
+		}
+		s.send(fmt.Sprintf("(set-option :timeout %d)", s.timeoutMs))
 	}
 	if res == "unknown" {
 		s.Unknown++
